@@ -115,7 +115,8 @@ func VString(v *ast.Value) string { panic("ghost") }
 //@ modifies fresh
 //@ end
 
-//@ define declaresAt(schema map[string]*ast.Definition, T string, i int) bool = has(schema, T) && schema[T].Kind == ast.Object && !hasprefix(T, "__") && 0 <= i && i < len(schema[T].Fields) && !hasprefix(schema[T].Fields[i].Name, "__") && !nodeEntry(schema[T].Fields[i]) && schema[T].Fields[i].Name != "id"
+// (the Relay entry point is Query.node: a field of that shape on any other type is an ordinary field and needs a route, B32)
+//@ define declaresAt(schema map[string]*ast.Definition, T string, i int) bool = has(schema, T) && schema[T].Kind == ast.Object && !hasprefix(T, "__") && 0 <= i && i < len(schema[T].Fields) && !hasprefix(schema[T].Fields[i].Name, "__") && !(T == "Query" && nodeEntry(schema[T].Fields[i])) && schema[T].Fields[i].Name != "id"
 //@ define declaresName(schema map[string]*ast.Definition, T string, n string) bool = exists(i, 0, len(schema[T].Fields), declaresAt(schema, T, i) && schema[T].Fields[i].Name == n)
 //@ define implNode(schema map[string]*ast.Definition, T string) bool = has(schema, T) && schema[T].Kind == ast.Object && !hasprefix(T, "__") && exists(j, 0, len(schema[T].Interfaces), schema[T].Interfaces[j] == "Node")
 
